@@ -102,6 +102,20 @@ def variants(prop, root):
                 yield f"seeded/{name}", "break", None, f"stale: {exc}"
                 continue
             yield f"seeded/{name}", "break", ov, meta.get("summary", "")
+    # behaviour-preserving refactorings (written by independent agents): every property's check must stay silent on each
+    refac = os.path.join(VERIF, "refactorings")
+    if os.path.isdir(refac):
+        for name in sorted(os.listdir(refac)):
+            diff_p = os.path.join(refac, name, "patch.diff")
+            if not os.path.exists(diff_p):
+                continue
+            try:
+                with open(diff_p) as fh:
+                    ov = apply_unified_diff(repo_read, fh.read())
+            except (ValueError, OSError) as exc:
+                yield f"refactorings/{name}", "equiv", None, f"stale: {exc}"
+                continue
+            yield f"refactorings/{name}", "equiv", ov, "behaviour-preserving refactoring"
 
 
 def _one(args):
